@@ -412,7 +412,13 @@ def _run_ops(case):
                 if o[0] == "new":
                     store.append(_new_monitor(o[2], o[1], files))
                 elif o[0] == "call":
-                    store[o[1]](_mk_x(o[2], o[3]), _mk_y(o[4], o[5]), _mk_id(o[6]))
+                    xo, yo = _mk_x(o[2], o[3]), _mk_y(o[4], o[5])
+                    store[o[1]](xo, yo, _mk_id(o[6]))
+                    # the caller goes on using its own buffers: what was recorded must not follow
+                    if isinstance(xo, list) and xo and not isinstance(xo[0], (list, tuple)):
+                        xo[0] = 98765.4321
+                    if isinstance(yo, list) and yo:
+                        yo[0] = 98765.4321
                 elif o[0] == "info":
                     store[o[1]].info("msg%d" % o[2])
                 elif o[0] == "slice":
